@@ -41,9 +41,12 @@ def lock_spec(prop, tier):
     if prop == "C01":
         if q:
             return (lr(merge(fam("p2x1", "conv2"), fam("opt2", "prep2", locks=OPT)), -1)
-                    + lr(fam("p2x2", "p3x1"), 2))
+                    + lr(fam("p2x2", "p3x1"), 2)
+                    + lr(fam("rrw", locks=(0, 1)), 3))
         return (lr(merge(fam("p2x1", "conv2", "p2x2"), fam("opt2", "prep2", locks=OPT)), -1, **T)
                 + lr(merge(fam("p3x1", "conv3", "p2x3"), fam("opt3", "prep3", locks=OPT)), 3, **T)
+                + lr(fam("rrw"), 4, **T)
+                + lr(fam("p3x2w", locks=(0, 1)), 3, **T)
                 + lr(fam("p4x1", locks=MCS), 2, **T)
                 + lr(fam("p2x1", "p3x1"), 2, dev=1, **T)
                 + lr(fam("p2x2", "p3x1"), 2, retry=1, **T))
